@@ -80,6 +80,54 @@ def canon_pre(text):
     return "\n".join(out)
 
 
+def version_builds(ctx, viol):
+    """--version reports the build version, whatever build/VERSION says: the working tree is copied to a
+    scratch directory (removed afterwards), built there with other VERSION files, and the binary is asked."""
+    import shutil
+    import subprocess
+    import tempfile
+    versions = ["v1.10", "v12.107"] if ctx.tier == "quick" else ["v1.10", "v12.107", "v0.0", "v3.25", "v2.9", "v10.1", "v1.100"]
+    runs = 0
+    d = tempfile.mkdtemp(prefix="inkfem-version-")
+    try:
+        src = os.path.join(d, "src")
+        shutil.copytree(C.REPO, src, ignore=shutil.ignore_patterns(".git"))
+        text = "inkfem v1.1\n\n|nodes|\nn1 -> 0 0 { dx dy rz }\nn2 -> 100 0 { }\n\n|materials|\n'm' -> 1 21000000 8100000 0.3 27500 43000\n\n|sections|\n's' -> 10 170 16 34 5.8\n\n|loads|\nfy lc b1 1 -10\n\n|bars|\nb1 -> n1 { dx dy rz } n2 { dx dy rz } 'm' 's'\n"
+        for v in versions:
+            open(os.path.join(src, "build", "VERSION"), "w").write(v + "\n")
+            exe = os.path.join(d, "inkfem-" + v)
+            rc, out = C.sh(["go", "build", "-tags", "verif", "-o", exe, "."], cwd=src, env=C.GOENV, timeout=600)
+            if rc != 0:
+                viol("the tree does not build with build/VERSION = %s: %s" % (v, out[-400:]), {"version_file": v})
+                continue
+            want = "inkfem " + v
+            wd = os.path.join(d, "run")
+            shutil.rmtree(wd, ignore_errors=True)
+            os.makedirs(wd)
+            open(os.path.join(wd, "x.inkfem"), "w").write(text)
+            outs = {}
+            for args in (["--version"], ["generate", "-t", "retic", "-s", "1", "-l", "1"], ["solve", "-p", "x.inkfem"]):
+                p = subprocess.run([exe] + args, cwd=wd, stdout=subprocess.PIPE, stderr=subprocess.PIPE, text=True, timeout=120)
+                outs[" ".join(args)] = (p.returncode, p.stdout)
+                runs += 1
+            rc, so = outs["--version"]
+            if rc != 0 or not re.search(r"\b%s\b(?!\d)" % re.escape(v), so):
+                viol("built with build/VERSION = %s, --version prints %r" % (v, so[:80]), {"version_file": v, "args": ["--version"]})
+                continue
+            firsts = {"generate": outs["generate -t retic -s 1 -l 1"][1].split("\n")[0]}
+            for fn in ("x.inkfempre", "x.inkfemsol"):
+                pth = os.path.join(wd, fn)
+                if os.path.exists(pth):
+                    firsts[fn] = open(pth).read().split("\n")[0]
+            for k, first in firsts.items():
+                if first.strip() != want:
+                    viol("built with build/VERSION = %s, the first line of %s is %r" % (v, k, first[:60]), {"version_file": v, "output": k})
+                    break
+    finally:
+        shutil.rmtree(d, ignore_errors=True)
+    return runs
+
+
 def run(ctx):
     rng = random.Random(ctx.seed)
     res = C.prove(ctx, "Properties/C13.v")
@@ -216,6 +264,13 @@ def run(ctx):
             viol("solve -e 1e-300 exits 0: the requested error is not enforced", {"args": ["solve", "-e", "1e-300", "x.inkfem"], "text": text})
         if r4.status != 0:
             viol("solve -e 1e6 fails", {"args": ["solve", "-e", "1e6", "x.inkfem"], "text": text})
+        # a bound nothing can meet is enforced as given, not replaced by a default
+        for e in ("-1", "0"):
+            r6 = cli.run(ctx, ["solve", "-e", e, "x.inkfem"], files={"x.inkfem": text}, name="c13")
+            runs += 1
+            if r6.status == 0 and len(s.loads) > 0 and (e != "0" or r3.status != 0):
+                viol("solve -e %s exits 0%s: the requested error is not the one enforced" % (e, " and leaves a .inkfemsol" if "x.inkfemsol" in r6.files else ""),
+                     {"args": ["solve", "-e", e, "x.inkfem"], "text": text})
         # histories: every command, run after other commands in the same directory, does what it does in a clean one
         hist = [["solve", "x.inkfem"], ["solve", "-w", "x.inkfem"], ["solve", "x.inkfem"], ["solve", "-p", "x.inkfem"], ["pre", "-w", "x.inkfem"],
                 ["solve", "-e", "1e-300", "x.inkfem"], ["pre", "x.inkfem"], ["solve", "x.inkfempre"], ["plot", "x.inkfem"], ["solve", "-e", "1e6", "x.inkfem"]]
@@ -260,6 +315,20 @@ def run(ctx):
     runs += 1
     if rg.status != 0 or not rg.stdout.startswith("inkfem v") or rg.files:
         viol("generate does not print a definition to standard output (exit %s, files %s)" % (rg.status, sorted(rg.files)), {"args": ["generate"]})
+    # generate honours each of its flags, long and short, zero and negative loads included
+    from . import C19
+    for (gs, gl, gspan, gh, gload) in ((2, 1, "250", "120", "-30"), (1, 2, "400", "300", "0"), (3, 1, "0.5", "2.25", "12.5")):
+        for args in (["generate", "--type", "retic", "--spans", str(gs), "--levels", str(gl), "--span", gspan, "--level", gh, "--load", gload],
+                     ["generate", "-t", "retic", "-s", str(gs), "-l", str(gl), "-p", gspan, "-e", gh, "-o", gload]):
+            rg = cli.run(ctx, args, name="c13")
+            runs += 1
+            if rg.status != 0 or rg.files:
+                viol("%s: exit %s, files %s" % (" ".join(args), rg.status, sorted(rg.files)), {"args": args})
+                continue
+            fails = C19.documented(gs, gl, Fr(gspan), Fr(gh), Fr(gload), C19.parse_generated(ctx, rg.stdout))
+            if fails:
+                viol("%s does not print the frame its flags ask for: %s" % (" ".join(args), "; ".join(fails[:3])), {"args": args, "stdout": rg.stdout[:3000]})
+    runs += version_builds(ctx, viol)
     ctx.log("%d command-line runs: pre / solve / solve -p under the late, early and free writer schedules with -v and -s, -w vs explicit weights, -e, plot, generate, --version" % runs)
     if not res["ok"] and concrete == 0:
         ctx.violation("proof obligation no longer checks (%s %s)" % (res["stage"], res.get("failed_at", "")),
